@@ -150,7 +150,9 @@ SBuf::rawAppendFinish(const char *start, size_type actualSize)
     size_type newSize = length() + actualSize;
     Must3(newSize <= min(maxSize, store_->capacity-off_), "raw append fits", Here());
     len_ = newSize;
-    store_->size = off_ + newSize;
+    // grow the used area by what was appended; never assign it: with actualSize == 0 our area
+    // may end before bytes that other SBufs sharing this blob still use
+    store_->appended(actualSize);
 }
 
 char *
